@@ -4,7 +4,7 @@
    This file only restates the property theorems; proofs are in frame/*Proofs.v. *)
 From Coq Require Import List NArith ZArith Bool.
 From JV Require Import Bytes FrameBase FrameBaseProofs FrameSpec Split SplitProofs Hdr HdrProofs
-  HdrSpec HdrSpecProofs JsonScan JsonScanProofs RawJson RawJsonProofs FrameMore.
+  HdrSpec HdrSpecProofs JsonScan JsonScanProofs RawJson RawJsonProofs FrameMore Chunked ChunkedProofs.
 From RecordUpdate Require Import RecordUpdate.
 From JV Require Import Msg SrvModel SrvC12.
 Import ListNotations.
@@ -35,6 +35,19 @@ Theorem c12_split_complete : forall b r rest,
   ~ In b r -> Split.recv cfg_fixed b tt (r ++ b :: rest) = Ok r tt rest.
 Proof. exact split_complete. Qed.
 Print Assumptions c12_split_complete.
+
+(* fragmentation (Chunked.v: transport = non-empty chunks under a bufio.Reader): one Recv from ANY
+   reachable reader state, on any stream, returns what the stream model returns on the bytes the
+   reader still delivers, and leaves a reader that delivers exactly the model's remaining stream *)
+Theorem c12_split_chunked_recv : forall c eager b r x,
+  wf bufio_size r ->
+  forget (crecv c eager b (tt, r) x) = Split.recv c b tt (stream r) /\
+  match crecv c eager b (tt, r) x with
+  | Ok _ st rest | OkWithErr _ _ st rest | Err _ st rest => wf bufio_size (snd st) /\ stream (snd st) = rest
+  | _ => True
+  end.
+Proof. exact split_chunked_recv_state. Qed.
+Print Assumptions c12_split_chunked_recv.
 
 (* bytes returned together with an error are the WHOLE unterminated tail (fix F6) *)
 Theorem c12_split_partial_whole : forall b s r e st rest,
